@@ -638,8 +638,8 @@ func planC15(t *testing.T, tier string, seed uint64) ([]RunSpec, error) {
 	graphs := 60
 	orders := 4
 	if !quick(tier) {
-		graphs = 1500
-		orders = 20
+		graphs = 8000
+		orders = 24
 	}
 	idx := 0
 	add := func(params, fault map[string]int, n int) {
